@@ -76,6 +76,17 @@ func tokensOf(r *rng, defs []metricDef) []string {
 	return out
 }
 
+// notDefinedTokens: every metric of an optional group spelled out with its
+// "not defined" code (the first code of each optional metric: X / ND) - the
+// shape tools emit by default.
+func notDefinedTokens(defs []metricDef) []string {
+	out := make([]string, len(defs))
+	for i, d := range defs {
+		out[i] = d.name + ":" + d.vals[0]
+	}
+	return out
+}
+
 // vecShape describes what a generated vector contains (used by C12 to know
 // which v2 groups are present; never by an oracle that needs CVSS semantics).
 type vecShape struct {
@@ -88,17 +99,42 @@ type vecShape struct {
 func genValidVector(r *rng, k int) (string, vecShape) {
 	var sh vecShape
 	lvl := kindLevel(k)
+	allND := r.chance(1, 7) // optional groups present but entirely "not defined"
 	if kindIsV2(k) {
 		toks := tokensOf(r, v2BaseDefs)
-		if lvl >= 1 && r.chance(2, 3) {
-			toks = append(toks, tokensOf(r, v2TempDefs)...)
+		if lvl >= 1 && (allND || r.chance(2, 3)) {
+			if allND || r.chance(1, 8) {
+				toks = append(toks, notDefinedTokens(v2TempDefs)...)
+			} else {
+				toks = append(toks, tokensOf(r, v2TempDefs)...)
+			}
 			sh.HasTemporal = true
 		}
-		if lvl >= 2 && r.chance(2, 3) {
-			toks = append(toks, tokensOf(r, v2EnvDefs)...)
+		if lvl >= 2 && (allND || r.chance(2, 3)) {
+			if allND || r.chance(1, 8) {
+				toks = append(toks, notDefinedTokens(v2EnvDefs)...)
+			} else {
+				toks = append(toks, tokensOf(r, v2EnvDefs)...)
+			}
 			sh.HasEnv = true
 		}
 		return strings.Join(toks, "/"), sh
+	}
+	if allND {
+		toks := tokensOf(r, v3BaseDefs)
+		if lvl >= 1 {
+			toks = append(toks, notDefinedTokens(v3TempDefs)...)
+			sh.HasTemporal = true
+		}
+		if lvl >= 2 {
+			toks = append(toks, notDefinedTokens(v3EnvDefs)...)
+			sh.HasEnv = true
+		}
+		ver := "CVSS:3.1"
+		if r.chance(1, 3) {
+			ver = "CVSS:3.0"
+		}
+		return ver + "/" + strings.Join(toks, "/"), sh
 	}
 	toks := tokensOf(r, v3BaseDefs)
 	full := r.chance(1, 8) // every optional metric present: the longest well-formed vector
@@ -183,6 +219,23 @@ func genVector(r *rng, k int, big bool) (vec string, class string, sh vecShape) 
 	case c < 62:
 		if big && r.chance(1, 4) {
 			return genBig(r), "big", vecShape{}
+		}
+		if r.chance(1, 4) {
+			// a vector followed by padding that ends in a multi-byte character or a
+			// run of continuation bytes, with the total length at or next to a
+			// power-of-two boundary (truncation, abbreviation, fixed buffers)
+			v, _ := genValidVector(r, k)
+			target := pick(r, []int{32, 64, 128, 256, 512, 1024, 4096}) + r.between(-2, 3)
+			tail := pick(r, []string{"é", "語", "😀", "\x80", "\xbf\xbf", "\x80\x80\x80\x80", "\xc3", "\xe8\xaa"})
+			pad := target - len(v) - len(tail)
+			sep := pick(r, []string{"/", " ", "/X:", "#"})
+			if pad > len(sep) {
+				v += sep + strings.Repeat(pick(r, []string{"a", "x", "/", ":", "\x80", "é"}), pad-len(sep))
+				if len(v) > target-len(tail) {
+					v = v[:target-len(tail)]
+				}
+			}
+			return v + tail, "nonascii-tail", vecShape{}
 		}
 		if r.chance(1, 3) {
 			// runs of separators / minimal tokens of every small length: token-count
